@@ -379,7 +379,7 @@ pub fn search_c15(rng: &mut Rng, thorough: bool) -> SearchResult {
 
 pub fn search_c16(rng: &mut Rng, thorough: bool) -> SearchResult {
     let mut r = SearchResult::default();
-    r.rule = "small planar probe triangles (size min(1e-5, rho/500), random orientation, edges subdivided 8x) placed in each of the 10 sectors of all 12 faces: near the centre, along the internal seams, at edge midpoints, near vertices and in the reflected margin beyond the face edge, not straddling a seam: (area of the unprojected triangle on the sphere) / (planar area) equals 4*pi / (12 * face area) within 1e-4 relative. non-trivial = distinct probe triangles".into();
+    r.rule = "small planar probe triangles (size min(1e-5, rho/500, a quarter of the distance to the nearest seam / edge), random orientation, edges subdivided 8x) placed in each of the 10 sectors of all 12 faces: at 1e-6..0.12 from the centre, 1e-7..1e-2 rad from the internal seams (hence also next to vertices and edge midpoints), 10^-8..10^-2.5 of the way from the face edge on either side, and in the reflected margin, never straddling a seam or the edge: (area of the unprojected triangle on the sphere) / (planar area) equals 4*pi / (12 * face area) within 1e-4 relative. non-trivial = distinct probe triangles".into();
     let d = DodecahedronProjection::get_thread_local();
     let fv = a5::core::tiling::get_face_vertices();
     let face_area = (fv.get_area() / 2.0).abs();
@@ -390,24 +390,53 @@ pub fn search_c16(rng: &mut Rng, thorough: bool) -> SearchResult {
     for _ in 0..n {
         let origin = rng.below(12) as u8;
         let sector = rng.below(10) as f64;
-        // polar angle inside the sector, away from its two bounding seams
-        let gamma = (sector + 0.08 + 0.84 * rng.unit()) * std::f64::consts::PI / 5.0;
+        // polar angle inside the sector: either well away from its two bounding seams, or approaching one of them
+        // to within 10^-u radians (u = 2..7); `clear` is the distance to the nearest line where the map is not smooth
+        let pi5 = std::f64::consts::PI / 5.0;
+        let seam_offset = if rng.chance(1, 4) { Some(10f64.powf(-(2.0 + 5.0 * rng.unit()))) } else { None };
+        let gamma = match seam_offset {
+            Some(off) => (sector + if rng.chance(1, 2) { 0.0 } else { 1.0 }) * pi5 + if rng.chance(1, 2) { off } else { -off },
+            None => (sector + 0.08 + 0.84 * rng.unit()) * pi5,
+        };
         let beta = {
-            let seg = gamma / (2.0 * std::f64::consts::PI / 5.0);
-            (seg - seg.round()) * (2.0 * std::f64::consts::PI / 5.0)
+            let seg = gamma / (2.0 * pi5);
+            (seg - seg.round()) * (2.0 * pi5)
         };
         let x_edge = edge / beta.cos();
-        let rho = match rng.below(5) {
+        // distance from the face edge, as a fraction of x_edge, when approaching it: 10^-u, u = 2.5..8
+        let edge_offset = 10f64.powf(-(2.5 + 5.5 * rng.unit()));
+        let rho = match rng.below(8) {
             0 => 0.02 + 0.1 * rng.unit(),
             1 => x_edge * (0.3 + 0.6 * rng.unit()),
             2 => x_edge * (1.0 - 0.002 - 0.02 * rng.unit()),
             3 => x_edge * (1.0 + 0.002 + 0.1 * rng.unit()), // reflected margin
+            4 => 10f64.powf(-(2.0 + 4.0 * rng.unit())),      // approaching the face centre: 1e-2 .. 1e-6
+            5 => x_edge * (1.0 - edge_offset),               // approaching the edge from inside
+            6 => x_edge * (1.0 + edge_offset),               // ... and from the reflected margin
             _ => x_edge * rng.unit() * 0.97 + 0.01,
         };
+        let mut clear = rho;
+        if let Some(off) = seam_offset {
+            clear = clear.min(rho * off);
+        }
+        clear = clear.min((rho - x_edge).abs() * beta.cos());
         // probe size: small against the distance to the face centre (image edges are curved, the
-        // curvature grows like 1/rho) and each edge is subdivided, so that the polygon through the
-        // unprojected points approximates the image region to ~1e-7 relative
-        let h = 1e-5f64.min(rho / 500.0);
+        // curvature grows like 1/rho) and to the nearest seam / edge, and each edge is subdivided, so that the
+        // polygon through the unprojected points approximates the image region to ~1e-7 relative
+        let h = 1e-5f64.min(rho / 500.0).min(clear / 4.0);
+        // f64 floor: the unprojected corners carry ~5e-14 absolute noise (acos of a number near 1; only ~1e-16 in the
+        // small-angle series used within ~1e-3 of the centre), so probes must stay well above noise / 1e-5
+        if !(h >= if rho < 5e-4 { 2e-9 } else { 2e-8 }) {
+            continue;
+        }
+        // beyond the edge the map is defined on the reflected triangle (edge midpoint M, vertex V, reflected centre
+        // A' = 2M) only; past the line V-A' (beyond the vertex) no cell reaches and the inverse snaps to V: stay inside
+        if rho > x_edge {
+            let (x, y) = (rho * beta.cos(), rho * beta.sin().abs());
+            if !((x - edge) + y / pi5.tan() <= edge - 8.0 * h) {
+                continue;
+            }
+        }
         let rot = std::f64::consts::TAU * rng.unit();
         let c = (rho * gamma.cos(), rho * gamma.sin());
         let tri: Vec<Face> = (0..3).map(|k| {
